@@ -833,11 +833,13 @@ func (st *State) loopEnv(fr *Frame, li *loopInfo) *Env {
 			env.vars[name] = envVar{v, p.Type()}
 		}
 	}
-	// visited set of a map-range loop
+	// visited set of a map-range loop; byte position of a string-range loop (strpos)
 	for _, in := range li.head.Instrs {
 		if nx, ok := in.(*ssa.Next); ok {
 			if it, ok := fr.vals[nx.Iter].(*MapIterV); ok && !it.IsStr {
 				env.visited = it
+			} else if ok && it.IsStr {
+				env.vars["strpos"] = envVar{Const(it.Pos, SInt), tInt}
 			}
 		}
 	}
@@ -917,6 +919,13 @@ func (st *State) havocLoop(fr *Frame, li *loopInfo) {
 				vs := st.fresh("visited", ArrS(st.e.leaves(it.KeyT)[0].Sort, SBool))
 				nit.Visited = vs.S
 				fr.vals[nx.Iter] = &nit
+			} else if ok && it.IsStr {
+				// string range: the byte position reached so far is arbitrary (the invariant says what is known of it)
+				nit := *it
+				np := st.fresh("strpos", SInt)
+				st.assume(And(Ge(np, IntLit(0)), Le(np, st.strLen(it.Str))))
+				nit.Pos = np.S
+				fr.vals[nx.Iter] = &nit
 			}
 		}
 	}
@@ -933,7 +942,21 @@ func (st *State) havocLoop(fr *Frame, li *loopInfo) {
 	if all {
 		st.havoc(nil, nil)
 	} else if len(pats) > 0 {
-		st.havoc(pats, nil)
+		// patterns marked alloc!: arrays in which the loop body only writes objects it allocates itself
+		var mods, allocs []string
+		for _, p := range pats {
+			if strings.HasPrefix(p, "alloc!") {
+				allocs = append(allocs, strings.TrimPrefix(p, "alloc!"))
+			} else {
+				mods = append(mods, p)
+			}
+		}
+		if len(mods) > 0 {
+			st.havoc(mods, nil)
+		}
+		if len(allocs) > 0 {
+			st.havocFresh(allocs)
+		}
 	}
 }
 
@@ -1278,6 +1301,12 @@ func sameSiteKind(a, b ssa.Instruction) bool { return siteKind(a) == siteKind(b)
 // modset computation (syntactic)
 
 func (e *Engine) modSetBlocks(st *State, fn *ssa.Function, blocks map[*ssa.BasicBlock]bool, depth int, seen map[*ssa.Function]bool) (pats []string, all bool) {
+	return e.modSetBlocksB(st, fn, blocks, depth, seen, nil)
+}
+
+// modSetBlocksB: bind maps function-valued parameters of fn to the function literals passed for them by the call being
+// followed (callbacks handed down by the unit itself).
+func (e *Engine) modSetBlocksB(st *State, fn *ssa.Function, blocks map[*ssa.BasicBlock]bool, depth int, seen map[*ssa.Function]bool, bind map[ssa.Value]*ssa.Function) (pats []string, all bool) {
 	add := func(p string) { pats = append(pats, p) }
 	for _, b := range fn.Blocks {
 		if blocks != nil && !blocks[b] {
@@ -1329,6 +1358,16 @@ func (e *Engine) modSetBlocks(st *State, fn *ssa.Function, blocks map[*ssa.Basic
 						callee = mk.Fn.(*ssa.Function)
 					}
 				}
+				if callee == nil && bind != nil && bind[c.Value] != nil {
+					callee = bind[c.Value]
+				}
+				if callee == nil && st != nil {
+					// a function-valued parameter or captured variable that the current call stack binds to a known
+					// function literal (a callback handed down by the unit itself)
+					if fv := st.boundFunc(fn, c.Value); fv != nil {
+						callee = fv
+					}
+				}
 				if callee == nil {
 					if c.IsInvoke() && (e.isSkippedIface(c) || pureExternal("invoke "+typeKey(c.Value.Type())+"."+c.Method.Name())) {
 						continue
@@ -1336,7 +1375,7 @@ func (e *Engine) modSetBlocks(st *State, fn *ssa.Function, blocks map[*ssa.Basic
 					if ct := e.dynContract(c); ct != nil {
 						if ct.HasMods {
 							pats = append(pats, ct.Modifies...)
-							pats = append(pats, ct.Allocates...)
+							pats = append(pats, allocMarked(ct.Allocates)...)
 							continue
 						}
 						continue
@@ -1344,7 +1383,7 @@ func (e *Engine) modSetBlocks(st *State, fn *ssa.Function, blocks map[*ssa.Basic
 					if !c.IsInvoke() {
 						if ct, ok := e.specs.Contracts[dynCallKey(c)]; ok {
 							pats = append(pats, ct.Modifies...)
-							pats = append(pats, ct.Allocates...)
+							pats = append(pats, allocMarked(ct.Allocates)...)
 							continue
 						}
 					}
@@ -1353,7 +1392,7 @@ func (e *Engine) modSetBlocks(st *State, fn *ssa.Function, blocks map[*ssa.Basic
 				key := fnKey(callee)
 				if ct, ok := e.specs.Contracts[key]; ok && !ct.Inline {
 					pats = append(pats, ct.Modifies...)
-					pats = append(pats, ct.Allocates...)
+					pats = append(pats, allocMarked(ct.Allocates)...)
 					continue
 				}
 				if m, ok := e.entModset(callee); ok {
@@ -1386,7 +1425,27 @@ func (e *Engine) modSetBlocks(st *State, fn *ssa.Function, blocks map[*ssa.Basic
 				}
 				if e.inModule(callee) && callee.Blocks != nil && depth < 4 {
 					seen[callee] = true
-					p2, a2 := e.modSetBlocks(st, callee, nil, depth+1, seen)
+					var nb map[ssa.Value]*ssa.Function
+					for i, a := range c.Args {
+						var f *ssa.Function
+						switch x := a.(type) {
+						case *ssa.MakeClosure:
+							f, _ = x.Fn.(*ssa.Function)
+						case *ssa.Function:
+							f = x
+						}
+						off := 0
+						if callee.Signature.Recv() != nil && !c.IsInvoke() {
+							off = 0 // receiver is Args[0] and Params[0] alike
+						}
+						if f != nil && i+off < len(callee.Params) {
+							if nb == nil {
+								nb = map[ssa.Value]*ssa.Function{}
+							}
+							nb[callee.Params[i+off]] = f
+						}
+					}
+					p2, a2 := e.modSetBlocksB(st, callee, nil, depth+1, seen, nb)
 					if a2 {
 						return e.modAll(fn, in)
 					}
@@ -1407,6 +1466,41 @@ func genericPure(callee *ssa.Function) bool {
 		return true
 	}
 	return strings.HasPrefix(n, "ParseString") && strings.Contains(callee.String(), "participle/v2.Parser")
+}
+
+// boundFunc: v is a parameter (or free variable) of fn, and some frame of the current call stack executing fn binds it
+// to a known function.
+func (st *State) boundFunc(fn *ssa.Function, v ssa.Value) *ssa.Function {
+	for i := len(st.frames) - 1; i >= 0; i-- {
+		fr := st.frames[i]
+		if fr.fn != fn {
+			continue
+		}
+		switch x := v.(type) {
+		case *ssa.Parameter:
+			if fv, ok := fr.vals[x].(*FuncV); ok && fv.Fn != nil {
+				return fv.Fn
+			}
+		case *ssa.FreeVar:
+			for j, f := range fn.FreeVars {
+				if f == x && j < len(fr.bindings) {
+					if fv, ok := fr.bindings[j].(*FuncV); ok && fv.Fn != nil {
+						return fv.Fn
+					}
+				}
+			}
+		}
+		return nil
+	}
+	return nil
+}
+
+func allocMarked(ps []string) []string {
+	out := make([]string, 0, len(ps))
+	for _, p := range ps {
+		out = append(out, "alloc!"+p)
+	}
+	return out
 }
 
 func (e *Engine) modAll(fn *ssa.Function, in ssa.Instruction) ([]string, bool) {
@@ -1459,7 +1553,7 @@ func (e *Engine) entModset(callee *ssa.Function) ([]string, bool) {
 	case "All", "Only", "First", "Get":
 		if kind == "Query" || kind == "Client" {
 			// a query changes no table; it allocates entities and the boxed / sliced values of their columns
-			return append([]string{"S:dbfailed"}, e.entAllocPats()...), true
+			return append([]string{"S:dbfailed"}, allocMarked(e.entAllocPats())...), true
 		}
 		return []string{"T:*", "S:dbfailed", "CB:*", "F:ent.*", "B:*", "E:*"}, true
 	case "IDs", "OnlyID", "FirstID":
@@ -1486,7 +1580,7 @@ func (e *Engine) entModset(callee *ssa.Function) ([]string, bool) {
 		if (kind == "Delete" || kind == "DeleteOne") && callee.Name() == "Exec" {
 			return []string{"T:*", "S:dbfailed"}, true
 		}
-		return append([]string{"T:*", "S:dbfailed", "CB:*"}, e.entAllocPats()...), true
+		return append([]string{"T:*", "S:dbfailed", "CB:*"}, allocMarked(e.entAllocPats())...), true
 	case "OnCommit", "OnRollback":
 		return []string{"S:wake_on_commit"}, true
 	}
